@@ -99,10 +99,15 @@ def nested_format(chk, tier, seed):
     bookkeeping of nested units.  Correspondence with Model/Units.v (g_format_solution); oracle: every input stop
     listed exactly once.  Findings N1-N7 apply by shape."""
     rng = random.Random(seed * 1009 + 2020)
-    n = 150 if tier == "quick" else 3000
+    n = 300 if tier == "quick" else 6000
     cases = []
     for i in range(n):
-        m = G.gen_model(rng, "small", {"groups": True, "initial": rng.random() < 0.4})
+        if i % 2:
+            # initial stops that belong to groups on routes that break a temporal constraint: the repair pass of addInitialSolution
+            m = G.gen_model(rng, "small", {"groups": True, "initial": True, "windows": True, "endtime": rng.random() < 0.6,
+                                           "maxdur": rng.random() < 0.5, "tight": True, "capacity": False})
+        else:
+            m = G.gen_model(rng, "small", {"groups": True, "initial": rng.random() < 0.4})
         ops = ["op q_format"]      # the state NewSolution built (initial stops)
         for i2, o in enumerate(G.gen_ops(rng, m, 14, "unchecked")[:-1]):
             ops += [o, "op q_format"]
@@ -153,7 +158,7 @@ def nested_format(chk, tier, seed):
                 reported = True
                 hits += 1
                 chk.violation({"kind": "history", "what": "output lists stops %s, input has 0..%d" % (listed, nst - 1), "step": k,
-                               "finding_shape": {"kind": "nested", "oracle": "C20", "op": last[0], "result": last[1], "group": last[2],
+                               "finding_shape": {"kind": "nested", "oracle": "C20", "op": last[0], "result": last[1], "group": last[2], "has_groups": bool(m.get("groups")),
                                                  "detail": "stops", "tainted": tainted},
                                "case": G.case_lines(m, ops[:k])})
             o, rs, grp = last
